@@ -141,6 +141,8 @@ fn consume_iter<E: Elem, I: DoubleEndedIterator<Item = E>>(mut it: I, how: Consu
 pub struct VecPair<A: Elem, B: Elem> {
     pub b: Option<BVec<'static, A>>,
     pub s: Option<Vec<B>>,
+    /// slices returned by into_bump_slice(_mut): they stay valid (and unchanged) for the arena's life
+    pub frozen: Vec<(&'static [A], Vec<(u32, u32)>)>,
     pub held_it: Option<(bumpalo::collections::vec::IntoIter<'static, A>, std::vec::IntoIter<B>)>,
     pub held_dr: Option<(bumpalo::collections::vec::Drain<'static, 'static, A>, std::vec::Drain<'static, B>)>,
     pub boxes: Vec<(bumpalo::boxed::Box<'static, [A]>, Box<[B]>)>,
@@ -162,6 +164,7 @@ impl<A: Elem, B: Elem> VecPair<A, B> {
             s: None,
             boxes: Vec::new(),
             promised: None,
+            frozen: Vec::new(),
             held_it: None,
             held_dr: None,
         }
@@ -194,6 +197,12 @@ impl<A: Elem, B: Elem> VecPair<A, B> {
         if self.held_dr.is_some() {
             // the vector is mutably borrowed by the live drain; it is compared again afterwards
             return Ok(());
+        }
+        for (i, (sl, want)) in self.frozen.iter().enumerate() {
+            let got: Vec<(u32, u32)> = sl.iter().map(key).collect();
+            if &got != want || sl.iter().any(|e| !e.intact()) {
+                return Err(format!("slice #{} returned by into_bump_slice changed afterwards", i));
+            }
         }
         if let Some((bi, si)) = &self.held_it {
             let (x, y) = (bi.as_slice(), si.as_slice());
@@ -265,6 +274,7 @@ impl<A: Elem, B: Elem> VecPair<A, B> {
 
     pub fn drop_all(&mut self) {
         self.release_held();
+        self.frozen.clear();
         let b = self.b.take();
         let s = self.s.take();
         let _ = b_call(move || drop(b));
@@ -433,10 +443,17 @@ impl<A: Elem, B: Elem> VecPair<A, B> {
             VOp::IntoBumpSlice { mutable } => {
                 let bv = self.b.take().unwrap();
                 let sv = self.s.take().unwrap();
-                let b = b_call(move || {
-                    let sl: &[A] = if *mutable { bv.into_bump_slice_mut() } else { bv.into_bump_slice() };
+                let mut kept: Option<&'static [A]> = None;
+                let b = b_call(|| {
+                    let sl: &'static [A] = if *mutable { bv.into_bump_slice_mut() } else { bv.into_bump_slice() };
+                    kept = Some(sl);
                     Ret::Elems(sl.iter().map(key).collect())
                 });
+                if let (Some(sl), Ok(Ret::Elems(ks))) = (kept, &b) {
+                    if !A::ZST && self.frozen.len() < 8 {
+                        self.frozen.push((sl, ks.clone()));
+                    }
+                }
                 let s = s_call(move || Ret::Elems(sv.leak().iter().map(key).collect()));
                 self.promised = None;
                 return OpOutcome { b, s, extra };
